@@ -905,10 +905,16 @@ class PlayingStatusReactor(StatusReactor):
         self.handle_proto_version(self.connection.default_proto_version)
 
     def handle_exception(self, exc, exc_info):
-        if isinstance(exc, EOFError) and self.connection.connected:
-            # An exception of this type may indicate that the server does not
-            # properly support status queries, so we treat it as non-fatal,
-            # unless the stream ended because 'disconnect' has been called.
-            self.connection.disconnect(immediate=True)
-            self.handle_failure()
-            return True
+        # The lock and the test of 'new_networking_thread' keep the thread of
+        # a connection that has been disconnected from taking the connection
+        # that another thread has established since for its own.
+        with self.connection._write_lock:
+            if isinstance(exc, EOFError) and self.connection.connected \
+                    and self.connection.new_networking_thread is None:
+                # An exception of this type may indicate that the server does
+                # not properly support status queries, so we treat it as
+                # non-fatal, unless the stream ended because 'disconnect' has
+                # been called.
+                self.connection.disconnect(immediate=True)
+                self.handle_failure()
+                return True
